@@ -150,8 +150,23 @@ impl Walker for Fixer<'_> {
         let s = &mut self.src;
         if s.bool() {
             b.version = 1;
-            if let (Some(p), true) = (&b.transactions_generator, s.bool()) {
-                b.transactions_generator_buffer = Some(p.to_vec());
+            if s.bool() {
+                // the raw generator bytes of a real block are a CLVM list: mostly a
+                // pair-rooted program (as the builders emit), else the derived
+                // generator's program if there is one, else a few arbitrary bytes
+                let bytes = if s.chance(160) {
+                    let mut ts = s.sub(24);
+                    let mut g = vec![0xff, 0x01];
+                    g.extend_from_slice(&rich_program(&mut ts, false));
+                    gen_label("block:v1-generator-is-a-quoted-program");
+                    g
+                } else if let Some(p) = &b.transactions_generator {
+                    p.to_vec()
+                } else {
+                    let n = s.below(12);
+                    s.bytes(n)
+                };
+                b.transactions_generator_buffer = Some(bytes);
             }
             b.transactions_generator = None;
             b.transactions_generator_ref_list = vec![];
@@ -167,8 +182,20 @@ impl Walker for Fixer<'_> {
         let s = &mut self.src;
         if s.bool() {
             b.version = 1;
-            if let (Some(p), true) = (&b.transactions_generator, s.bool()) {
-                b.transactions_generator_buffer = Some(p.to_vec());
+            if s.bool() {
+                let bytes = if s.chance(160) {
+                    let mut ts = s.sub(24);
+                    let mut g = vec![0xff, 0x01];
+                    g.extend_from_slice(&rich_program(&mut ts, false));
+                    gen_label("block:v1-generator-is-a-quoted-program");
+                    g
+                } else if let Some(p) = &b.transactions_generator {
+                    p.to_vec()
+                } else {
+                    let n = s.below(12);
+                    s.bytes(n)
+                };
+                b.transactions_generator_buffer = Some(bytes);
             }
             b.transactions_generator = None;
             b.transactions_generator_ref_list = vec![];
